@@ -460,6 +460,11 @@ class BasicReadStatementPatcherVisitor(BasicConstructVisitor):
             for outval, inval in rhs_to_temp.items()
         ]
 
+        # The temp strings hold the DATA items until the last filter call has
+        # run, so no filter call may reuse one of them for its own purposes.
+        for filter_statement in filter_statements:
+            filter_statement.reserve_temps_of(statement)
+
         return BasicStatements([statement] + filter_statements, multi_line=False)
 
 
